@@ -173,10 +173,11 @@ theorem readUntilImageData_ki (cfg : Cfg) (t : TCfg) (r : R) (hr : KI r) : KI (r
     · exact hk'
     · split
       · exact hk'
-      · simp only
+      · rename_i heq
+        have hk3 := reserveBytes_ki heq hk'
         split
-        · exact hk'
-        · rename_i heq; exact reserveBytes_ki heq hk'
+        · exact hk3
+        · exact hk3
 
 theorem readInfo'_ki (cfg : Cfg) (t : TCfg) (r : R) (hr : KI r) : KI (readInfo' cfg t r).1 := by
   unfold readInfo'
